@@ -34,6 +34,21 @@ func runLine(c *checker, line string) {
 		if len(f) == 4 {
 			c03Input(c, r, byte(num(f[2])), unhx(f[3]), "replay")
 		}
+	case "A":
+		if len(f) == 3 && f[1] == "env" {
+			c13Case(c, "env-stream", 0, unhx(f[2]))
+			c13Case(c, "env-decode", 0, unhx(f[2]))
+			c13Case(c, "read-request", 0, unhx(f[2]))
+			c.flushCost()
+		} else if len(f) == 3 && f[1] == "frame" {
+			c13Case(c, "frame", 0, unhx(f[2]))
+			c.flushCost()
+		} else if len(f) == 4 {
+			for _, api := range []string{"stream", "stream-skip", "lazy"} {
+				c13Case(c, api, byte(num(f[2])), unhx(f[3]))
+			}
+			c.flushCost()
+		}
 	case "Q", "W":
 		b := unhx(f[len(f)-1])
 		et := uint8(1)
